@@ -81,22 +81,28 @@ func (h *History) expItems(ui int, items []Item) []ExpEvent {
 	for ii, it := range items {
 		switch it.Kind {
 		case IRows:
-			for ri := range it.Rows {
-				r := &it.Rows[ri]
-				t := &h.Tables[r.Table]
-				e := ExpEvent{Kind: [...]string{"insert", "update", "delete"}[r.Kind], DB: t.DB, Table: t.Name, TS: int64(r.TS), Unit: ui, Item: ii, Rows: ri}
-				for _, row := range r.Rows {
-					switch r.Kind {
-					case 0:
-						e.Values = append(e.Values, expImage(t, r.Present1, row.After))
-					case 1:
-						e.Identifies = append(e.Identifies, expImage(t, r.Present1, row.Before))
-						e.Values = append(e.Values, expImage(t, r.Present2, row.After))
-					case 2:
-						e.Identifies = append(e.Identifies, expImage(t, r.Present1, row.Before))
+			reps := it.Repeat
+			if reps < 1 {
+				reps = 1
+			}
+			for rep := 0; rep < reps; rep++ {
+				for ri := range it.Rows {
+					r := &it.Rows[ri]
+					t := &h.Tables[r.Table]
+					e := ExpEvent{Kind: [...]string{"insert", "update", "delete"}[r.Kind], DB: t.DB, Table: t.Name, TS: int64(r.TS), Unit: ui, Item: ii, Rows: ri}
+					for _, row := range r.Rows {
+						switch r.Kind {
+						case 0:
+							e.Values = append(e.Values, expImage(t, r.Present1, row.After))
+						case 1:
+							e.Identifies = append(e.Identifies, expImage(t, r.Present1, row.Before))
+							e.Values = append(e.Values, expImage(t, r.Present2, row.After))
+						case 2:
+							e.Identifies = append(e.Identifies, expImage(t, r.Present1, row.Before))
+						}
 					}
+					out = append(out, e)
 				}
-				out = append(out, e)
 			}
 		case IQuery:
 			out = append(out, h.expQuery(it.Q, ui, ii))
